@@ -2,13 +2,13 @@
 namespace BdModel.Canon.Sched
 
 /-- hash of the normalised skeleton of Schedule (internal/dag/scheduler/scheduler.go) -/
-def h_sched_Schedule : Nat := 0xb0573dcdccd73d26
+def h_sched_Schedule : Nat := 0x2ee8de192722c1e3
 
 /-- hash of the normalised skeleton of isReady (internal/dag/scheduler/scheduler.go) -/
 def h_sched_isReady : Nat := 0xfa451317c79e8e2a
 
 /-- hash of the normalised skeleton of Status (internal/dag/scheduler/scheduler.go) -/
-def h_sched_Status : Nat := 0x87406c78a0943964
+def h_sched_Status : Nat := 0x4acff1f0bbe4da67
 
 /-- hash of the normalised skeleton of Signal (internal/dag/scheduler/scheduler.go) -/
 def h_sched_Signal : Nat := 0x32fb27f5ad1d1778
@@ -104,6 +104,7 @@ def scheduleIfConds : List String := ["err != nil", "sc.timeout > 0", "sc.isCanc
 def signalSkeleton : List String := ["if !sc.isCanceled()", ".sc.setCanceled()", "range _,node := g.Nodes()", ".if !node.data.Step.RepeatPolicy.Repeat || sig == syscall.SIGKILL", "..node.signal(sig, allowOverride)", "if done != nil", ".func#0()()", "..func#0 body", "...done <- true", ".defer ^", ".for ;g.IsRunning() || sc.isExecuting(g);", "..time.Sleep(sc.pause)"]
 
 def statusCascade : List (List String) := [
+  ["?", "if outcome, ok := sc.getOutcome(); ok { return outcome }"],
   ["sc.isCanceled() && !sc.isSucceed(g)", "StatusCancel"],
   ["!g.IsStarted()", "StatusNone"],
   ["g.IsRunning()", "StatusRunning"],
